@@ -1,0 +1,5 @@
+//go:build !verif
+
+package dict
+
+func verifOrderedKeys[K comparable, V any](m map[K]V) ([]K, bool) { return nil, false }
